@@ -3,7 +3,9 @@ H("c08_attrs", "C08", "seq", ["harness/c08_attrs.cc"], sdk=_C08_SDK, cxxflags=["
   args={"quick": ["--n1=3", "--n2=2"], "thorough": ["--n1=3", "--n2=3"]},
   what="real FilteredOrderedAttributeMap / hash / FilteringAttributesProcessor / AttributesHashMap / SyncMetricStorage (and MeterProvider + View): every pair of "
        "single-key lists over 47 typed values (every AttributeValue alternative), every pair of lists of <= n1 / <= n2 entries over keys {a,b,c} x 3 values "
-       "(all orders, duplicates), keys with embedded NUL / common prefixes, every allow-list, 3 key storage shapes; against a std::map reference "
+       "(all orders, duplicates), keys with embedded NUL / common prefixes, every allow-list, 3 key storage shapes; all pairs of 13 ways to build the EMPTY set "
+       "(default-constructed, empty iterable / initializer list, filtered to empty) and <= 3 records mixing the attribute-less overloads (Add(v), Record(v,ctx), "
+       "RecordLong/RecordDouble(value,ctx)) with empty / filtered-to-empty / kept attribute sets over two cycles with delta and cumulative collectors; against a std::map reference "
        "(equal-as-maps <=> same series, equal => equal hash, filter removes exactly the disallowed keys, owned copies)",
   design_ref="5/C08")
 H("c08_cardinality", "C08", "seq", ["harness/c08_cardinality.cc"], sdk=_C08_SDK, cxxflags=["-fno-access-control"],
